@@ -118,9 +118,9 @@ macro_rules! to_rev_only {
 }
 
 harnesses! {
-    fn c07_q_rev_dna_l4 [6] { rev_inplace!(Dna, oracle::DNA, 64, 4) }
-    fn c07_q_rev_dna_l1 [3] { rev_inplace!(Dna, oracle::DNA, 64, 1) }
-    fn c07_q_rev_dna_l0 [3] {
+    fn c07_q_rev_dna_l4 [10] { rev_inplace!(Dna, oracle::DNA, 64, 4) }
+    fn c07_q_rev_dna_l1 [10] { rev_inplace!(Dna, oracle::DNA, 64, 1) }
+    fn c07_q_rev_dna_l0 [10] {
         let mut s: Seq<Dna> = Seq::new();
         s.rev();
         assert!(s.len() == 0, "C07.rev.empty");
@@ -132,34 +132,34 @@ harnesses! {
         core::mem::forget(s);
     }
     fn c07_q_rev_amino_l3 [11] { rev_inplace!(Amino, oracle::AMINO, 21, 3) }
-    fn c07_q_rev_miupac_l3 [9] { rev_inplace!(masked::Iupac, oracle::MIUPAC, 25, 3) }
+    fn c07_q_rev_miupac_l3 [10] { rev_inplace!(masked::Iupac, oracle::MIUPAC, 25, 3) }
     fn c07_t_rev_dna_l33 [35] { rev_inplace!(Dna, oracle::DNA, 64, 33) }
-    fn c07_t_rev_iupac_l3 [8] { rev_inplace!(Iupac, oracle::IUPAC, 32, 3) }
+    fn c07_t_rev_iupac_l3 [10] { rev_inplace!(Iupac, oracle::IUPAC, 32, 3) }
     fn c07_t_rev_text_l2 [10] { rev_inplace!(text::Dna, oracle::TEXT_RAW, 16, 2) }
-    fn c07_t_rev_degen_l5 [5] { rev_inplace!(degenerate::Dna, oracle::DEGEN, 128, 5) }
+    fn c07_t_rev_degen_l5 [10] { rev_inplace!(degenerate::Dna, oracle::DEGEN, 128, 5) }
     fn c07_q_rev_amino_l11 [35] { rev_inplace!(Amino, oracle::AMINO, 21, 11) }
 
-    fn c07_q_comp_dna_l4 [6] { comp_inplace!(Dna, oracle::DNA, 0, 64, 4) }
-    fn c07_q_comp_iupac_l3 [5] { comp_inplace!(Iupac, oracle::IUPAC, 1, 32, 3) }
-    fn c07_q_comp_miupac_l3 [5] { comp_inplace!(masked::Iupac, oracle::MIUPAC, 2, 25, 3) }
-    fn c07_t_comp_mdna_l3 [5] { comp_inplace!(masked::Dna, oracle::MDNA, 3, 32, 3) }
-    fn c07_t_comp_degen_l3 [5] { comp_inplace!(degenerate::Dna, oracle::DEGEN, 4, 128, 3) }
+    fn c07_q_comp_dna_l4 [10] { comp_inplace!(Dna, oracle::DNA, 0, 64, 4) }
+    fn c07_q_comp_iupac_l3 [10] { comp_inplace!(Iupac, oracle::IUPAC, 1, 32, 3) }
+    fn c07_q_comp_miupac_l3 [10] { comp_inplace!(masked::Iupac, oracle::MIUPAC, 2, 25, 3) }
+    fn c07_t_comp_mdna_l3 [10] { comp_inplace!(masked::Dna, oracle::MDNA, 3, 32, 3) }
+    fn c07_t_comp_degen_l3 [10] { comp_inplace!(degenerate::Dna, oracle::DEGEN, 4, 128, 3) }
     fn c07_t_comp_dna_l33 [35] { comp_inplace!(Dna, oracle::DNA, 0, 64, 33) }
     fn c07_q_comp_miupac_l13 [15] { comp_inplace!(masked::Iupac, oracle::MIUPAC, 2, 25, 13) }
 
-    fn c07_q_revcomp_dna_l3 [5] { revcomp_inplace!(Dna, oracle::DNA, 0, 64, 3) }
-    fn c07_t_revcomp_iupac_l3 [8] { revcomp_inplace!(Iupac, oracle::IUPAC, 1, 32, 3) }
-    fn c07_t_revcomp_miupac_l3 [9] { revcomp_inplace!(masked::Iupac, oracle::MIUPAC, 2, 25, 3) }
+    fn c07_q_revcomp_dna_l3 [10] { revcomp_inplace!(Dna, oracle::DNA, 0, 64, 3) }
+    fn c07_t_revcomp_iupac_l3 [10] { revcomp_inplace!(Iupac, oracle::IUPAC, 1, 32, 3) }
+    fn c07_t_revcomp_miupac_l3 [10] { revcomp_inplace!(masked::Iupac, oracle::MIUPAC, 2, 25, 3) }
 
-    fn c07_q_to_rev_dna_o31_n2 [4] { to_forms!(Dna, oracle::DNA, 0, 64, 31, 2, 0) }
-    fn c07_q_to_comp_dna_o31_n2 [4] { to_forms!(Dna, oracle::DNA, 0, 64, 31, 2, 1) }
-    fn c07_q_to_revcomp_dna_o31_n2 [4] { to_forms!(Dna, oracle::DNA, 0, 64, 31, 2, 2) }
-    fn c07_q_to_revcomp_dna_o5_n3 [5] { to_forms!(Dna, oracle::DNA, 0, 64, 5, 3, 2) }
-    fn c07_t_to_revcomp_iupac_o15_n2 [6] { to_forms!(Iupac, oracle::IUPAC, 1, 32, 15, 2, 2) }
-    fn c07_t_to_comp_iupac_o15_n2 [6] { to_forms!(Iupac, oracle::IUPAC, 1, 32, 15, 2, 1) }
-    fn c07_q_to_revcomp_miupac_o12_n1 [4] { to_forms!(masked::Iupac, oracle::MIUPAC, 2, 25, 12, 1, 2) }
-    fn c07_t_to_revcomp_miupac_o12_n2 [7] { to_forms!(masked::Iupac, oracle::MIUPAC, 2, 25, 12, 2, 2) }
-    fn c07_t_to_rev_miupac_o12_n2 [7] { to_forms!(masked::Iupac, oracle::MIUPAC, 2, 25, 12, 2, 0) }
-    fn c07_q_to_rev_amino_o10_n1 [4] { to_rev_only!(Amino, oracle::AMINO, 21, 10, 1) }
-    fn c07_t_to_rev_amino_o10_n2 [8] { to_rev_only!(Amino, oracle::AMINO, 21, 10, 2) }
+    fn c07_q_to_rev_dna_o31_n2 [10] { to_forms!(Dna, oracle::DNA, 0, 64, 31, 2, 0) }
+    fn c07_q_to_comp_dna_o31_n2 [10] { to_forms!(Dna, oracle::DNA, 0, 64, 31, 2, 1) }
+    fn c07_q_to_revcomp_dna_o31_n2 [10] { to_forms!(Dna, oracle::DNA, 0, 64, 31, 2, 2) }
+    fn c07_q_to_revcomp_dna_o5_n3 [10] { to_forms!(Dna, oracle::DNA, 0, 64, 5, 3, 2) }
+    fn c07_t_to_revcomp_iupac_o15_n2 [10] { to_forms!(Iupac, oracle::IUPAC, 1, 32, 15, 2, 2) }
+    fn c07_t_to_comp_iupac_o15_n2 [10] { to_forms!(Iupac, oracle::IUPAC, 1, 32, 15, 2, 1) }
+    fn c07_q_to_revcomp_miupac_o12_n1 [10] { to_forms!(masked::Iupac, oracle::MIUPAC, 2, 25, 12, 1, 2) }
+    fn c07_t_to_revcomp_miupac_o12_n2 [10] { to_forms!(masked::Iupac, oracle::MIUPAC, 2, 25, 12, 2, 2) }
+    fn c07_t_to_rev_miupac_o12_n2 [10] { to_forms!(masked::Iupac, oracle::MIUPAC, 2, 25, 12, 2, 0) }
+    fn c07_q_to_rev_amino_o10_n1 [10] { to_rev_only!(Amino, oracle::AMINO, 21, 10, 1) }
+    fn c07_t_to_rev_amino_o10_n2 [10] { to_rev_only!(Amino, oracle::AMINO, 21, 10, 2) }
 }
